@@ -7,7 +7,7 @@ From SCC Require Import Base.Sexp Lang.AxSyn Sem.AxSem Sem.AxHeap Model.ParMoves
      Model.Linearize Model.LinCheck Generated.Constants Proof.LinBasics Proof.LinTyping Proof.X86State Proof.X86Sel Proof.X86Exec Proof.X86ParMoves
      Proof.SubstGraph Proof.X86Subst Proof.X86SimRel Proof.X86SimStmt Proof.X86SimAddr Proof.X86SimClo
      Proof.X86HeapDefs Proof.X86HeapCongr Proof.X86HBridge Proof.X86HFrame
-     Proof.X86HSimRel Proof.X86HSimStmt Proof.X86HConv Proof.X86HSimStore Proof.X86HSimLoad Proof.X86HLayout Proof.X86HSimHeapA Proof.X86HSimHeapB.
+     Proof.X86HSimRel Proof.X86HSimStmt Proof.X86HConv Proof.X86HSimStore Proof.X86HSimLoad Proof.X86HLayout Proof.X86HSimHeapA Proof.X86HAnn Proof.X86HSimHeapB.
 From SCC Require Model.Heap Proof.HeapMore Proof.HeapTrace Proof.HeapRep.
 Import ListNotations.
 Open Scope Z_scope.
@@ -211,6 +211,7 @@ Theorem hsim_invoke c he hs s sp v tag t args cd lc lc' pc he0 x tn cls ce q cl 
     exec_to im pc s pcb s' /\
     xcs (ptypes p) (cl_body cl) (cl_ctx cl ++ ctx_of_env ce) lcb = Ok (cb, lcb') /\ code_at im pcb cb /\ labels_at_nh im pcb cb /\
     lin_check (sigs_of p) (cl_ctx cl ++ ctx_of_env ce) (cl_body cl) = true /\
+    ann_check (cl_ctx cl ++ ctx_of_env ce) (cl_body cl) = true /\
     hrel (cl_ctx cl ++ ctx_of_env ce) (attach e1 (ptrs he0) ++ attach ce (load_ptrs hs (List.length ce) q))
          (hrun (load_ops (List.length ce) q) hs) s' sp /\
     hframe_eq s s' sp.
@@ -241,7 +242,7 @@ Proof.
   destruct (find (fun d => ident_eqb (tname d) tn) (ptypes p)) as [d'|] eqn:FD; [|discriminate]. inversion LT; subst d'. clear LT.
   destruct (find_clause_pos cls (txtors d) tag cl 0%N CO FC) as (k & xk & Hk & Hxk & XP & FX & SMk).
   pose proof (cls_sig_length _ _ CO) as LCL.
-  destruct (ENTRY k cl Hk) as (i & pcc & lcl & cl1 & lcb & cb & lcb' & IX & SMa & ARR & LD & BDY & CAb & LAb & LCb).
+  destruct (ENTRY k cl Hk) as (i & pcc & lcl & cl1 & lcb & cb & lcb' & IX & SMa & ARR & LD & BDY & CAb & LAb & LCb & ANb).
   pose proof (hr_frame R) as F.
   assert (T2' : xtpos Snd (List.length c0) = Ok t2) by (rewrite <- L0; exact T2).
   assert (T1' : xtpos Fst (List.length c0) = Ok t1) by (rewrite <- L0; exact T1).
@@ -328,7 +329,7 @@ Proof.
   - (* nothing captured *)
     cbn [ctx_of_env map x_load] in *. inversion LD; subst cl1 lcb. cbn [List.length padd] in CAbd, LAbd.
     exists pcc, lcl, cb, lcb', sj. split; [exact XJ|]. split; [exact BDY|]. split; [exact CAbd|]. split; [exact LAbd|].
-    split; [exact LCb|]. split; [|exact FEj]. cbn [List.length load_ops hrun fold_left attach]. rewrite !app_nil_r. exact Rj.
+    split; [exact LCb|]. split; [exact ANb|]. split; [|exact FEj]. cbn [List.length load_ops hrun fold_left attach]. rewrite !app_nil_r. exact Rj.
   - set (ce := ce0 :: cer) in *.
     assert (NEc : map snd ce <> []) by discriminate.
     assert (XFj : xflds (hword sj) (map snd ce) q).
@@ -342,7 +343,7 @@ Proof.
       as (s' & XL & FEL & RL).
     rewrite map_length in RL.
     exists (padd pcc (List.length cl1)), lcb, cb, lcb', s'.
-    split; [eapply exec_to_trans; eassumption|]. split; [exact BDY|]. split; [exact CAbd|]. split; [exact LAbd|]. split; [exact LCb|].
+    split; [eapply exec_to_trans; eassumption|]. split; [exact BDY|]. split; [exact CAbd|]. split; [exact LAbd|]. split; [exact LCb|]. split; [exact ANb|].
     split; [rewrite load_ops_run by (cbn; lia); exact RL|eapply hframe_eq_trans; eassumption].
 Qed.
 End HC.
